@@ -255,7 +255,11 @@ func runTreeHistory(t testing.TB, ops []string) string {
 			case id := <-ack:
 				if kind == "sx" {
 					takeOrder()
-					out = append(out, "spawned-dead="+id)
+					res := "spawned-dead=" + id
+					if e.Registry.get(NewPID(e.address, id)) != nil {
+						res += "!still-registered" // an actor that exhausted its budget during its own start must be gone
+					}
+					out = append(out, res)
 				} else {
 					live[f[0]+"."+f[1]] = true
 					out = append(out, "spawned="+id)
@@ -462,7 +466,7 @@ func TestVerifTree(t *testing.T) {
 		emit(fmt.Sprintf("corpus%d", i), strings.Split(s, ","))
 	}
 	r := vgen.NewRng(vgen.Seed())
-	n := vgen.Scale(300, 5000)
+	n := vgen.Scale(900, 6000)
 	names := []string{"a", "b", "c", "d"}
 	for i := 0; i < n; i++ {
 		rr := r.Fork()
